@@ -57,6 +57,7 @@ def run(ctx):
                    "enters both output maps and each verifying share is G * that share; recorded threshold = t.")
     ctx.undecided = "the polynomial identities (degree exactly t-1, reconstruction values): numeric."
     ctx.floor = 20
+    refusal_inventory(ctx)
     P = ctx.prog
     wrappers(ctx, ['keys::generate_with_dealer', 'keys::split', 'keys::reconstruct'])
     validate_ok = check_validate(ctx)
